@@ -198,7 +198,7 @@ def classify(pool: list[int], res: Any) -> list[tuple[str, str, dict[str, Any]]]
     if j["dispatch_after"] is not None:
         d = j["dispatch_after"]
         t = d["tid"]
-        hit = next((k for k in range(1, len(res.snaps)) if res.snaps[k - 1][5 + t] == LABEL_CODE["reglock"] and res.snaps[k][5 + t] == LABEL_CODE["elock"]), None)
+        hit = next((k for k in range(1, len(res.snaps)) if res.snaps[k - 1][5 + t] == LABEL_CODE["reglock"] and res.snaps[k][5 + t] in (LABEL_CODE["elock"], LABEL_CODE["mklock"])), None)
         if hit is None and res.snaps and res.snaps[0][5 + t] == LABEL_CODE["elock"]:
             hit = 0
         gone = next((k for k in range(len(res.snaps)) if res.snaps[k][1] == 0), None)
@@ -253,7 +253,7 @@ def run(ctx: Any) -> None:
     ctx.rule = (
         "case = (pool of thread kinds {request, request+close_session, DELETE, reaper, shutdown}, session TTL, schedule); "
         "schedules: the 5 refuted-lemma witnesses; all schedules with <= k preemptions (k=1 quick, k=2 thorough; the clock "
-        "crossing the TTL is an actor); seeded random schedules with short bursts; thorough: all schedules up to depth 5-7 over "
+        "crossing the TTL is an actor); lockstep schedules (every thread advances in turn, by 1 or 2 steps) for 28 pools; seeded random schedules with short bursts; thorough: all schedules up to depth 5-7 over "
         "(threads + clock) for 2- and 3-thread pools; k=2 lists are sampled (120 per pool).  Every schedule is followed by a recorded drain suffix that lets "
         "every non-reaper thread finish.  distinct by (pool, ttl, executed schedule); non-trivial = at least two threads "
         "took a step and an event was recorded"
@@ -262,7 +262,7 @@ def run(ctx: Any) -> None:
     for name, pool, ttl, sch, _key in WITNESSES:
         cases.append((pool, ttl, sch, f"witness:{name}"))
     # preemption-bounded
-    pb_pools = [([0, 2], 100), ([0, 3], 1), ([0, 4], 100), ([0, 0], 1), ([1, 0], 100), ([1, 2], 100), ([2, 2], 100), ([1, 1], 100), ([2, 3], 0)]
+    pb_pools = [([0, 0], 100), ([0, 2], 100), ([0, 3], 1), ([0, 4], 100), ([0, 0], 1), ([1, 0], 100), ([1, 2], 100), ([2, 2], 100), ([1, 1], 100), ([2, 3], 0)]
     for pool, ttl in pb_pools:
         all_pb = preemption_bounded(pool, ttl, 1 if quick else 2)
         if quick and len(all_pb) > 22:
@@ -279,8 +279,14 @@ def run(ctx: Any) -> None:
             ids = list(range(0 if ttl <= 3 else 1, len(pool) + 1))
             for tup in itertools.product(ids, repeat=depth):
                 cases.append((pool, ttl, list(tup), f"exhaustive-depth-{depth}"))
+    # lockstep: all threads advance in turn (hits check-then-act windows that need two threads at the same point)
+    for pool in POOLS:
+        n = len(pool)
+        for ttl in ([100] if quick else [1, 100]):
+            cases.append((pool, ttl, [i + 1 for _ in range(6) for i in range(n)], "lockstep"))
+            cases.append((pool, ttl, [i + 1 for _ in range(3) for i in range(n) for _ in range(2)], "lockstep"))
     # seeded random
-    for _ in range(100 if quick else 800):
+    for _ in range(70 if quick else 800):
         pool = ctx.rng.choice(POOLS)
         ttl = ctx.rng.choice([0, 1, 1, 2, 100, 100])
         cases.append((pool, ttl, random_schedule(ctx.rng, pool, ttl), "random"))
